@@ -19,6 +19,14 @@ fn s(x: &str) -> String {
     x.to_string()
 }
 
+/// a binary built next to `hv` (the two binaries of /repo are built into the same target directory)
+fn sibling_bin(name: &str) -> String {
+    let mut p = std::env::current_exe().unwrap();
+    p.pop();
+    p.push(name);
+    p.to_string_lossy().to_string()
+}
+
 fn scratch(dir: &str, name: &str) -> String {
     let d = format!("{dir}/scratch");
     std::fs::create_dir_all(&d).unwrap();
@@ -223,7 +231,7 @@ fn strip_ansi(x: &str) -> String {
 pub fn k9(dir: &str, thorough: bool, seed: u64) {
     let mut out = Out::new(dir, "k9");
     let mut rng = Rng::new(seed ^ 0x99);
-    let bin = std::env::var("HV_CLI_BIN").unwrap_or_else(|_| s("/verif/harness/target/release/hctl-model-checker"));
+    let bin = std::env::var("HV_CLI_BIN").unwrap_or_else(|_| sibling_bin("hctl-model-checker"));
     // the loader against the model: layouts with comments, blanks, CRLF, surrounding blanks, '#' after spaces
     let pieces = ["a & b", "  EF a  ", "# comment", "", "   ", "\t# indented comment", "!{x}: AX {x}", "a #not a comment", "#", "\u{a0}b\u{a0}", "AG (a | b)\r"];
     let nl = if thorough { 400 } else { 60 };
@@ -558,7 +566,7 @@ fn rand_fn(rng: &mut Rng, nvars: usize, params: &[(&str, usize)], depth: usize) 
 pub fn k10(dir: &str, thorough: bool, seed: u64) {
     let mut out = Out::new(dir, "k10");
     let mut rng = Rng::new(seed ^ 0x1010);
-    let bin = std::env::var("HV_CONVERT_BIN").unwrap_or_else(|_| s("/verif/harness/target/release/convert-aeon-to-bnet"));
+    let bin = std::env::var("HV_CONVERT_BIN").unwrap_or_else(|_| sibling_bin("convert-aeon-to-bnet"));
     if !std::path::Path::new(&bin).exists() {
         out.oracle(false, "C19", "the converter binary was not built", &bin);
         out.finish();
